@@ -1,5 +1,6 @@
 import Driver.Util
 import MevCommit.Model.Usable
+import MevCommit.Model.UsableN
 open Lean
 namespace Driver.C20
 open MevCommit MevCommit.Usable Driver
@@ -10,10 +11,18 @@ def schedule (gated : Bool) : List Step :=
   if gated then [.iWriteFinal, .iReturn, .iOpenStream, .wrapperLookup, .rReadVerify, .rRegister, .rDone, .wrapperResume]
   else [.iWriteFinal, .rReadVerify, .rRegister, .rDone, .iReturn, .iOpenStream, .wrapperLookup]
 
+/-- the same two schedules at the granularity of the locks (`Model/UsableN`) -/
+def scheduleN (gated second : Bool) : List UsableN.NStep :=
+  if second then [.rBegin, .iWriteFinal, .iReturn, .rReadVerify, .oBegin, .oRegister, .oEnd, .iOpenStream, .w1,
+    .rRegister, .rDone]
+  else if gated then [.rBegin, .iWriteFinal, .iReturn, .iOpenStream, .w1, .w2, .rReadVerify, .rRegister, .rDone, .w3, .w4]
+  else [.rBegin, .iWriteFinal, .rReadVerify, .rRegister, .rDone, .iReturn, .iOpenStream, .w1]
+
 def handle (inp impl : Json) : CaseResult :=
   let n := jnat inp "streams"
   let s := run true init (schedule (jbool inp "gated"))
-  let accepted := s.stream == .accepted
+  let sN := UsableN.nrun true UsableN.ninit (scheduleN (jbool inp "gated") (jbool inp "second_handler"))
+  let accepted := s.stream == .accepted && sN.stream == .accepted
   let m := mkObj [("connect_ok", true), ("streams_ok", if accepted then n else 0),
     ("handler_calls", if accepted then n else 0), ("identity_ok", true), ("unknown_peer_logs", 0), ("panic", false)]
   let ok := !(jbool impl "panic") &&
